@@ -7,6 +7,8 @@ package main
 import (
 	"strconv"
 
+	. "verif/harness/hlib"
+
 	"github.com/skycoin/skycoin/src/coin"
 	"github.com/skycoin/skycoin/src/util/fee"
 	"github.com/skycoin/skycoin/src/util/mathutil"
@@ -26,43 +28,43 @@ var c31Errs = map[error]string{
 }
 
 func c31Exec(op string) string {
-	f := fields(op)
+	f := Fields(op)
 	switch f[0] {
 	case "AddUint64":
-		v, err := mathutil.AddUint64(pu64(f[1]), pu64(f[2]))
-		return resU(v, err, c31Errs)
+		v, err := mathutil.AddUint64(PU64(f[1]), PU64(f[2]))
+		return ResU(v, err, c31Errs)
 	case "MultUint64":
-		v, err := mathutil.MultUint64(pu64(f[1]), pu64(f[2]))
-		return resU(v, err, c31Errs)
+		v, err := mathutil.MultUint64(PU64(f[1]), PU64(f[2]))
+		return ResU(v, err, c31Errs)
 	case "AddUint32":
-		v, err := mathutil.AddUint32(uint32(pu64(f[1])), uint32(pu64(f[2])))
-		return resU(uint64(v), err, c31Errs)
+		v, err := mathutil.AddUint32(uint32(PU64(f[1])), uint32(PU64(f[2])))
+		return ResU(uint64(v), err, c31Errs)
 	case "Uint64ToInt64":
-		v, err := mathutil.Uint64ToInt64(pu64(f[1]))
+		v, err := mathutil.Uint64ToInt64(PU64(f[1]))
 		if err != nil {
-			return "err " + errName(err, c31Errs)
+			return "err " + ErrName(err, c31Errs)
 		}
-		return okI(v)
+		return OkI(v)
 	case "Int64ToUint64":
-		v, err := mathutil.Int64ToUint64(pi64(f[1]))
-		return resU(v, err, c31Errs)
+		v, err := mathutil.Int64ToUint64(PI64(f[1]))
+		return ResU(v, err, c31Errs)
 	case "IntToUint32":
-		v, err := mathutil.IntToUint32(int(pi64(f[1])))
-		return resU(uint64(v), err, c31Errs)
+		v, err := mathutil.IntToUint32(int(PI64(f[1])))
+		return ResU(uint64(v), err, c31Errs)
 	case "RequiredFee":
-		return okU(fee.RequiredFee(pu64(f[1]), uint32(pu64(f[2]))))
+		return OkU(fee.RequiredFee(PU64(f[1]), uint32(PU64(f[2]))))
 	case "RemainingHours":
-		return okU(fee.RemainingHours(pu64(f[1]), uint32(pu64(f[2]))))
+		return OkU(fee.RemainingHours(PU64(f[1]), uint32(PU64(f[2]))))
 	case "VerifyFee":
-		err := fee.VerifyTransactionFeeForHours(pu64(f[1]), pu64(f[2]), uint32(pu64(f[3])))
+		err := fee.VerifyTransactionFeeForHours(PU64(f[1]), PU64(f[2]), uint32(PU64(f[3])))
 		if err != nil {
-			return "err " + errName(err, c31Errs)
+			return "err " + ErrName(err, c31Errs)
 		}
 		return "ok"
 	case "CoinHours":
-		ux := coin.UxOut{Head: coin.UxHead{Time: pu64(f[3])}, Body: coin.UxBody{Coins: pu64(f[1]), Hours: pu64(f[2])}}
-		v, err := ux.CoinHours(pu64(f[4]))
-		return resU(v, err, c31Errs)
+		ux := coin.UxOut{Head: coin.UxHead{Time: PU64(f[3])}, Body: coin.UxBody{Coins: PU64(f[1]), Hours: PU64(f[2])}}
+		v, err := ux.CoinHours(PU64(f[4]))
+		return ResU(v, err, c31Errs)
 	}
 	panic("harness: unknown op " + f[0])
 }
@@ -173,4 +175,4 @@ func c31Gen(r *Rng, tier string, emit func(string)) {
 	}
 }
 
-func init() { register("c31", &Prop{Gen: c31Gen, Exec: c31Exec}) }
+func main() { Main(&Prop{Gen: c31Gen, Exec: c31Exec}) }
